@@ -413,7 +413,16 @@ def init_cases(draw, nobj=4):
         storage = draw(st.sampled_from(["", "", "static ", "_Thread_local ", "const "]))
         if "(*" in decl and storage == "const ":
             storage = "static "
-        objs.append({"decl": decl, "init": init, "name": ident, "storage": storage, "incomplete": incomplete})
+        pre = None
+        if t.kind == "array" and not incomplete and storage in ("", "static ") and draw(st.integers(0, 3)) == 0:
+            # declared earlier with its length (extern, tentative or static), defined here without one: the object keeps the declared
+            # length whatever the number of initialisers (composite type, 6.2.7)
+            pre = "%s%s;" % (draw(st.sampled_from(["extern ", ""])) if storage == "" else "static ", decl)
+            n0, t.n = t.n, 0
+            decl = t.decl(ident)
+            t.n = n0
+            g.labels.add("array-redeclared-without-length")
+        objs.append({"decl": decl, "init": init, "name": ident, "storage": storage, "incomplete": incomplete, "pre": pre})
     if draw(st.integers(0, 3)) == 0:
         # several objects declared through one typedef of an array of unknown size: each initialiser sizes its own object
         en = draw(st.sampled_from(["int", "char", "unsigned short", "long"]))
